@@ -299,6 +299,9 @@ func (w *World) storeKey(addr ssa.Value) []string {
 
 // keysForCellsOf lists the heap keys of the scalar cells making up a value of type t stored at addr.
 func (w *World) keysForCellsOf(addr ssa.Value, t types.Type) []string {
+	if isBigInt(t) {
+		return []string{"$big"}
+	}
 	switch u := under(t).(type) {
 	case *types.Struct:
 		_, name := structOf(t)
@@ -336,6 +339,9 @@ func (w *World) keysOfField(name string, st *types.Struct, i int) []string {
 }
 
 func (w *World) keysOfType(t types.Type) []string {
+	if isBigInt(t) {
+		return []string{"$big"}
+	}
 	switch u := under(t).(type) {
 	case *types.Struct:
 		_, name := structOf(t)
@@ -392,6 +398,10 @@ func (w *World) externalWrites(f *ssa.Function) map[string]bool {
 		return map[string]bool{"$sb": true}
 	}
 	if strings.HasPrefix(n, "(*math/big.Int).") {
+		switch f.Name() {
+		case "Cmp", "CmpAbs", "Sign", "Int64", "Uint64", "IsInt64", "IsUint64", "BitLen", "Bytes", "String", "Text", "Bit", "TrailingZeroBits", "ProbablyPrime", "Append", "Format", "FillBytes":
+			return map[string]bool{}
+		}
 		return map[string]bool{"$big": true}
 	}
 	if pureExternalPkgs[pk] {
